@@ -63,6 +63,7 @@ type Run struct {
 	DischargedSamples []string
 	bounded     bool
 	TraceBudget int
+	Pinned      map[string]string // concrete re-execution: harness inputs fixed to a model
 	Traces      []*TraceSample
 	Wall        time.Duration
 	stop        bool
@@ -480,7 +481,11 @@ func (r *Run) Summary() string {
 	for _, e := range r.Inconclusive {
 		fmt.Fprintf(&sb, "  INCONCLUSIVE: %s\n", e)
 	}
-	for _, v := range r.Violations {
+	for i, v := range r.Violations {
+		if i >= 6 {
+			fmt.Fprintf(&sb, "  ... %d more counterexamples\n", len(r.Violations)-i)
+			break
+		}
 		fmt.Fprintf(&sb, "  CEX %s: %s at %s model=%v\n", v.Kind, v.Msg, v.Where, v.Model)
 	}
 	return sb.String()
